@@ -152,6 +152,7 @@ func (y *vsSys) Letters(s *vsState) []engine.Letter {
 			ls = append(ls, engine.Letter{Name: fmt.Sprintf("RegisterPlan(h+%d,o3,k3,execs=[])", dh), Data: vsRegister{dh, "o3", "k3", nil}})
 			// a decodable public key of a type no consensus engine key can be made from
 			ls = append(ls, engine.Letter{Name: fmt.Sprintf("RegisterPlan(h+%d,o3,%s,execs=[e2])", dh, vsUnusableKey), Data: vsRegister{dh, "o3", vsUnusableKey, []string{"e2"}}})
+			ls = append(ls, engine.Letter{Name: fmt.Sprintf("RegisterPlan(h+%d,o3,%s,execs=[e2])", dh, vsShortKey), Data: vsRegister{dh, "o3", vsShortKey, []string{"e2"}}})
 		}
 	}
 	return ls
@@ -176,7 +177,14 @@ func (s *vsState) child(ctx sdk.Context) *vsState {
 // cannot be converted into a CometBFT validator key.
 const vsUnusableKey = "multisig(k3)"
 
+// vsShortKey names an ed25519 public key of the wrong length (3 bytes): it decodes as JSON and as a
+// registered key type, but no consensus key or address can be made from it.
+const vsShortKey = "ed25519(3 bytes)"
+
 func pubKeyJSON(w *world.L2, key string) string {
+	if key == vsShortKey {
+		return `{"@type":"/cosmos.crypto.ed25519.PubKey","key":"AAEC"}`
+	}
 	var pk cryptotypes.PubKey = world.EdKey(key).PubKey()
 	if key == vsUnusableKey {
 		pk = kmultisig.NewLegacyAminoPubKey(1, []cryptotypes.PubKey{world.EdKey("k3").PubKey()})
@@ -303,7 +311,7 @@ func (y *vsSys) Step(s *vsState, l engine.Letter) (*vsState, string, *engine.Vio
 		// facts for the oracle / known-finding predicates, taken before registration
 		pl := &vsPlan{height: h, op: d.op, key: d.key, execs: d.execs}
 		err := s.w.K.RegisterExecutorChangePlan(1, h, valOf(d.op), "planval", pubKeyJSON(s.w, d.key), "info", execs)
-		if err != nil && d.key == vsUnusableKey {
+		if err != nil && (d.key == vsUnusableKey || d.key == vsShortKey) {
 			return c, "rejected-unusable-key", nil // refusing a key the engine cannot use is fine
 		}
 		if err != nil {
